@@ -10,7 +10,7 @@ META = dict(
 )
 
 RW = ['get', 'getam', 'put', 'putam']
-PL = ['cbc', 'ncbc', 'dcbc', 'someaux', 'amaux', 'naux', 'daux']
+PL = ['cbc', 'ncbc', 'dcbc', 'someaux', 'amaux', 'naux', 'daux', 'ssts', 'asts', 'nsts', 'dsts']
 
 
 def e2(rnd, count, maxn):
@@ -37,10 +37,10 @@ def e2(rnd, count, maxn):
                 n = min(n, 300)
                 L = rnd.choice([n, n + 3, max(1, n // 2), 2 * n])
                 R = rnd.choice([1, 2, 3, 8, 17])
-                if api in ('cbc', 'ncbc', 'dcbc'):
+                if api in ('cbc', 'ncbc', 'dcbc', 'ssts', 'asts', 'nsts', 'dsts'):
                     R = 1
                 ss = [rnd.choice(beh) for _ in range(rnd.randint(0, 30))]
-                ks = [rnd.choice([1, 2, 4, -4, -11] if api not in ('cbc', 'ncbc', 'dcbc') else [1, 2, 4]) for _ in range(rnd.randint(0, 30))]
+                ks = [rnd.choice([1, 2, 4, -4, -11] if api in ('someaux', 'amaux', 'naux', 'daux') else [1, 2, 4]) for _ in range(rnd.randint(0, 30))]
                 if rnd.random() < 0.25:
                     ss.insert(rnd.randint(0, len(ss)), -5)
                 if rnd.random() < 0.25:
